@@ -702,6 +702,7 @@ int disasm_msp430(
       {
         case OP_NONE:
           strcpy(instruction, table_msp430[n].instr);
+          count += 2;
           break;
         case OP_ONE_OPERAND:
         case OP_ONE_OPERAND_W:
@@ -890,7 +891,13 @@ int disasm_msp430(
     n++;
   }
 
-  if (table_msp430[n].instr == NULL) { strcpy(instruction, "???"); }
+  if (table_msp430[n].instr == NULL)
+  {
+    strcpy(instruction, "???");
+
+    // An undefined opcode still takes up its word.
+    if (count == 0) { count = 2; }
+  }
 
   if (prefix != 0xffff)
   {
